@@ -15,6 +15,9 @@ HELPERS = [
     ("def", "fresh", [("p", "[int...]")], "[int...]", [("assign", "q", ("mcall", V("p"), "clone", [])), ("setindex", V("q"), 0, I(99)), ("return", V("q"))]),
     ("def", "same", [("p", "[int...]")], "[int...]", [("return", V("p"))]),
 ]
+# callbacks for map / filter: `pick` returns an ELEMENT of another list (the result must hold its value, not a view)
+HELPERS.append(("def", "twice", [("v", "int")], "int", [("return", B("+", V("v"), V("v")))]))
+HELPERS.append(("def", "small", [("v", "int")], "bool", [("return", B("<", V("v"), I(4)))]))
 HELPERS.append(("def", "setk", [("m", "map[str, int]"), ("v", "int")], "int", [("msetindex", V("m"), ("str", "k"), V("v")), ("return", ("mcall", V("m"), "len", []))]))
 NAMES = ["a", "b", "c", "d"]
 S = lambda x: ("str", x)
@@ -35,6 +38,7 @@ def history(rnd, length):
     for _ in range(length):
         k = rnd.choice(["set", "set", "setvar", "op", "push", "len", "print", "printel", "alias", "clone", "join", "bump", "fresh", "same",
                         "is", "eq", "nest_set", "nest_read", "remove", "reverse", "symidx", "clone_push_eq", "lit_from_elems", "nest_chain",
+                        "map_pick", "map_twice", "filter_small",
                         "mset", "mset", "mop", "mread", "mread", "mlen", "mcontains", "mremove", "mreplace", "mclear", "msetk", "mlit_from_elems", "mremove_or", "mreplace_get"])
         mx = V(rnd.choice(maps))
         key = S(rnd.choice(KEYS))
@@ -104,6 +108,16 @@ def history(rnd, length):
             # a list literal built from elements of other lists holds VALUES: later updates of the sources do not reach it
             out += [("assign", "lq", ("list", [("index", x, 0), ("index", y, 1)]), "[int...]"), ("setindex", x, 0, arg(rnd)), ("setindex", y, 1, arg(rnd)),
                     ("print", V("lq")), ("setindex", V("lq"), 0, I(77)), ("print", x)]
+        elif k == "map_pick":
+            # the callback returns an element of ANOTHER list: the mapped list holds values - later updates of the source do not reach it
+            out += [("assign", "src", ("list", [arg(rnd), arg(rnd), I(6)]), "[int...]"), ("assign", "ix", ("list", [I(2), I(0), I(1)]), "[int...]"),
+                    ("def", "pick", [("i", "int")], "int", [("return", ("index", V("src"), "i"))]),
+                    ("assign", "mp", ("mcall", V("ix"), "map", [V("pick")])), ("print", V("mp")), ("setindex", V("src"), 0, arg(rnd)), ("expr", ("mcall", V("src"), "reverse", [])),
+                    ("print", V("mp")), ("setindex", V("mp"), 1, I(31)), ("print", V("src")), ("print", V("ix"))]
+        elif k == "map_twice":
+            out += [("assign", "mt", ("mcall", x, "map", [V("twice")])), ("print", V("mt")), ("print", x), ("print", ("is", V("mt"), x))]
+        elif k == "filter_small":
+            out += [("assign", "fl", ("mcall", x, "filter", [V("small")])), ("print", V("fl")), ("expr", ("mcall", V("fl"), "push", [I(2)])), ("print", x)]
         elif k == "nest_chain":
             out += [("assign", "j0", I(rnd.randint(0, 1))), ("setindex", ("index", V("nest"), "j0"), 0, arg(rnd)), ("print", ("index", ("index", V("nest"), 1), 0)),
                     ("opindex", ("index", V("nest"), 1), 0, "+", arg(rnd))]
